@@ -64,6 +64,11 @@ func kernels() []kernel {
 		{name: "storedKeyCopied", file: "sharded_map.go", recv: "shardedMap", fn: "Write", kind: "fact", unit: "stored-key-copied"},
 		{name: "storedKeyCopiedOf", file: "sharded_map_go1.18.go", recv: "shardedMapOf", fn: "Write", kind: "fact", unit: "stored-key-copied"},
 		{name: "storedKeyCopiedSync", file: "sync_map.go", recv: "syncMap", fn: "Write", kind: "fact", unit: "stored-key-copied"},
+		// constructors: the default backend of a Failover is the backend BackendConfig describes (C11), reporting under the failover's name (C18)
+		{name: "backendCfgPassthrough", file: "failover.go", fn: "NewFailover", kind: "fact", unit: "backendcfg-passthrough"},
+		{name: "backendCfgPassthroughOf", file: "failover_go1.18.go", fn: "NewFailoverOf", kind: "fact", unit: "backendcfg-passthrough"},
+		{name: "backendCfgIdentity", file: "failover.go", fn: "NewFailover", kind: "fact", unit: "backendcfg-identity"},
+		{name: "backendCfgIdentityOf", file: "failover_go1.18.go", fn: "NewFailoverOf", kind: "fact", unit: "backendcfg-identity"},
 		// constants
 		{name: "shards", file: "sharded_map.go", kind: "constdecl", lhs: "shards", sig: ": Int", unit: "int"},
 		{name: "defaultSkipInterval", file: "invalidator.go", recv: "Invalidator", fn: "Invalidate", kind: "defaultval", lhs: "i.SkipInterval", sig: ": Int", unit: "dur"},
